@@ -324,6 +324,32 @@ fn serializers(rt: &ConjureRuntime, registry: &[Enc], lines: &[String], chosen: 
         }
     }
     let value: Vec<i32> = vec![7, -1];
+    // a response whose serialization fails midway precedes every judged one (same thread): what
+    // it left behind must not reach the next response
+    struct FailsMidway;
+    impl serde::Serialize for FailsMidway {
+        fn serialize<S: serde::Serializer>(&self, s: S) -> Result<S::Ok, S::Error> {
+            use serde::ser::SerializeSeq;
+            let mut seq = s.serialize_seq(Some(3))?;
+            seq.serialize_element("partial output")?;
+            seq.serialize_element(&[1u8, 2, 3][..])?;
+            Err(serde::ser::Error::custom("fails midway"))
+        }
+    }
+    // (an Error captures a back-trace: one response in 32 is preceded by a failing one)
+    thread_local! {
+        static TICK: std::cell::Cell<u32> = std::cell::Cell::new(0);
+    }
+    let poison = || {
+        let n = TICK.with(|t| {
+            t.set(t.get().wrapping_add(1));
+            t.get()
+        });
+        if n % 32 != 1 {
+            return;
+        }
+        let _ = vcommon::catch(|| <StdResponseSerializer as SerializeResponse<_, Vec<u8>>>::serialize(rt, &headers, FailsMidway).is_ok());
+    };
     let observe = |ct: Option<&HeaderValue>, body: Option<&[u8]>| -> Result<Option<usize>, String> {
         let ct = ct.ok_or("response without Content-Type")?.to_str().map_err(|e| e.to_string())?.to_string();
         let idx = registry.iter().position(|e| e.content_type() == ct).ok_or(format!("Content-Type {} is not registered", ct))?;
@@ -338,19 +364,31 @@ fn serializers(rt: &ConjureRuntime, registry: &[Enc], lines: &[String], chosen: 
         Ok(Some(idx))
     };
     let runs: Vec<(&str, Result<Result<Option<usize>, String>, String>)> = vec![
-        ("StdResponseSerializer", vcommon::catch(|| match <StdResponseSerializer as SerializeResponse<_, Vec<u8>>>::serialize(rt, &headers, value.clone()) {
+        ("StdResponseSerializer", vcommon::catch(|| match {
+            poison();
+            <StdResponseSerializer as SerializeResponse<_, Vec<u8>>>::serialize(rt, &headers, value.clone())
+        } {
             Ok(resp) => observe(resp.headers().get(CONTENT_TYPE), match resp.body() { ResponseBody::Fixed(b) => Some(&b[..]), _ => None }),
             Err(_) => Ok(None),
         })),
-        ("StdResponseSerializer(async)", vcommon::catch(|| match <StdResponseSerializer as AsyncSerializeResponse<_, Vec<u8>>>::serialize(rt, &headers, value.clone()) {
+        ("StdResponseSerializer(async)", vcommon::catch(|| match {
+            poison();
+            <StdResponseSerializer as AsyncSerializeResponse<_, Vec<u8>>>::serialize(rt, &headers, value.clone())
+        } {
             Ok(resp) => observe(resp.headers().get(CONTENT_TYPE), match resp.body() { AsyncResponseBody::Fixed(b) => Some(&b[..]), _ => None }),
             Err(_) => Ok(None),
         })),
-        ("CollectionResponseSerializer", vcommon::catch(|| match <CollectionResponseSerializer as SerializeResponse<_, Vec<u8>>>::serialize(rt, &headers, value.clone()) {
+        ("CollectionResponseSerializer", vcommon::catch(|| match {
+            poison();
+            <CollectionResponseSerializer as SerializeResponse<_, Vec<u8>>>::serialize(rt, &headers, value.clone())
+        } {
             Ok(resp) => observe(resp.headers().get(CONTENT_TYPE), match resp.body() { ResponseBody::Fixed(b) => Some(&b[..]), _ => None }),
             Err(_) => Ok(None),
         })),
-        ("CollectionResponseSerializer(async)", vcommon::catch(|| match <CollectionResponseSerializer as AsyncSerializeResponse<_, Vec<u8>>>::serialize(rt, &headers, value.clone()) {
+        ("CollectionResponseSerializer(async)", vcommon::catch(|| match {
+            poison();
+            <CollectionResponseSerializer as AsyncSerializeResponse<_, Vec<u8>>>::serialize(rt, &headers, value.clone())
+        } {
             Ok(resp) => observe(resp.headers().get(CONTENT_TYPE), match resp.body() { AsyncResponseBody::Fixed(b) => Some(&b[..]), _ => None }),
             Err(_) => Ok(None),
         })),
